@@ -1,6 +1,6 @@
 (* C03 — Message payload layout, sizes and CRC_EXTRA follow the MAVLink spec.  Statements only. *)
 From Coq Require Import Sorting.Permutation Sorting.Sorted.
-From GM Require Import Bytes Result Codec Layout Tables LayoutSpec Dialects SortProofs TableLayout.
+From GM Require Import Bytes Result Codec Layout Tables LayoutSpec Dialects SortProofs TableLayout InitSpec TableInit.
 
 (* every message definition of every shipped dialect (regenerated from /repo on every run):
    the library's field table, sizes and CRC_EXTRA are those the MAVLink rules derive from the
@@ -28,3 +28,21 @@ Theorem C03_sorted_perm_unique : forall l1 l2,
   NoDup (map fd_index l1) -> Permutation l1 l2 -> StronglySorted R l1 -> StronglySorted R l2 -> l1 = l2.
 Proof. exact sorted_perm_unique. Qed.
 Print Assumptions C03_sorted_perm_unique.
+
+(* ANY Go message struct of the accepted shape (user structs included): name Message<Capital...>,
+   field names recoverable (capitalised, or carried by a mavname tag), types of the table, arrays
+   and strings of 1..255 elements, enum fields of an integer wire type, extensions declared after
+   base fields; whose denoted definition fits a 255-byte payload and is made of bytes:
+   Initialize succeeds and the field table (order, types, names, lengths), both payload sizes and
+   CRC_EXTRA are exactly those the MAVLink rules derive from the definition the struct denotes *)
+Theorem C03_initialize_is_spec : forall g d,
+  gostruct_ok g = true -> def_of g = Some d ->
+  (spec_size_ext (md_fields d) <= 255)%N -> bytes_ok (spec_crc_text d) = true ->
+  exists c, initialize g = Ok c /\ codec_matches_spec c d = true.
+Proof. exact initialize_is_spec. Qed.
+Print Assumptions C03_initialize_is_spec.
+
+(* the shape is not vacuous: all 408 shipped structs have it *)
+Theorem C03_all_shipped_accepted_shape : forallb gostruct_ok all_gostructs = true.
+Proof. exact all_shipped_accepted_shape. Qed.
+Print Assumptions C03_all_shipped_accepted_shape.
